@@ -18,8 +18,11 @@ All tokens are decimal integers.
   hold    <n> <feerate> <toHolder> <toCp> <k> (..)*k <m> (..)*m <sigsOk>
   revoke  <n>
   cprevoke <n>
-  close2  <toHolder> <toCp> <hPresent> <sid> <len> <canSpend> <allowlisted> <cPresent> <sid> <len> <canSpend> <allowlisted>
-  close1  <npaths> <canon> <nouts> (<value> <sid> <len> <canSpend> <allowlisted>)*nouts
+  close2  <toHolder> <toCp> <hPresent> <sid> <len> <rank> <canSpend> <allowlisted> <cPresent> <sid> <len> <rank> <canSpend> <allowlisted>
+  close1  <npaths> <version> <locktime> <sequence> <outpoint (1 = the funding outpoint)> <nouts> (<value> <sid> <len> <rank> <canSpend> <allowlisted>)*nouts
+          on success the close ops also print ` tx=<version>/<locktime>/<sequence>/<outpoint>/[<value>@<sid>,..]`, the
+          structured rendering of the transaction that is signed (`canonClose`); the harness prints the rendering of
+          the transaction it built from scratch and against which the returned signature verified
 Output: `<result> <digest>` with result ∈ ok | err:<class> | panic, or `nochan` / `dead` / `bad-op`.
 `warnmask` bit k downgrades the k-th tag of `maskTags` to a warning (exact-match rule); bit 30 prepends
 the permissive rule.
@@ -76,7 +79,7 @@ def htlcs? (base : Nat) : List Nat → Option (List Htlc × List Nat)
 
 def outs? : Nat → List Nat → List Out → Option (List Out × List Nat)
   | 0, rest, acc => some (acc.reverse, rest)
-  | j + 1, v :: sid :: len :: cs :: al :: rest, acc => outs? j rest (⟨v, sid, len, b cs, b al⟩ :: acc)
+  | j + 1, v :: sid :: len :: rk :: cs :: al :: rest, acc => outs? j rest (⟨v, sid, len, rk, b cs, b al⟩ :: acc)
   | _ + 1, _, _ => none
 
 def digest (e : EState) : String :=
@@ -86,6 +89,20 @@ def resStr : Except Kind α → String
   | .ok _ => "ok"
   | .error .panic => "panic"
   | .error k => "err:" ++ k.name
+
+def renderTx (t : ClosingTx) : String :=
+  let outs := ",".intercalate (t.outputs.map (fun o => s!"{o.value}@{o.sid}"))
+  s!"tx={t.version}/{t.locktime}/{t.sequence}/{t.outpoint}/[{outs}]"
+
+/-- the channel's funding outpoint (opaque id used on the op lines) -/
+def fundingId : Nat := 1
+
+/-- result of a close: new state + the transaction that is signed -/
+def applyClose (st : St) (r : Except Kind (EState × ClosingTx)) : St × String :=
+  match r with
+  | .ok (e', tx) => ({ st with es := e' }, "ok " ++ digest e' ++ " " ++ renderTx tx)
+  | .error .panic => ({ st with dead := true }, "panic")
+  | .error k => (st, "err:" ++ k.name ++ " " ++ digest st.es)
 
 /-- apply the result of an entry point that returns a new enforcement state -/
 def applyRes (st : St) (r : Except Kind EState) : St × String :=
@@ -158,16 +175,17 @@ def step (st : St) (toks : List String) : St × String :=
         if !st.ready then (st, "nochan") else applyRes st (revokeHolder st.policy st.es n)
       | "cprevoke", [n] =>
         if !st.ready then (st, "nochan") else applyRes st (cpRevoke st.policy st.es n (2 * n))
-      | "close2", [hv, cv, hp, hsid, hlen, hcs, hal, cp, csid, clen, ccs, cal] =>
+      | "close2", [hv, cv, hp, hsid, hlen, hrk, hcs, hal, cp, csid, clen, crk, ccs, cal] =>
         if !st.ready then (st, "nochan") else
-        let hs : Option Out := if b hp then some ⟨hv, hsid, hlen, b hcs, b hal⟩ else none
-        let cs : Option Out := if b cp then some ⟨cv, csid, clen, b ccs, b cal⟩ else none
-        applyRes st (signClose2 st.policy st.setup st.es ⟨hv, cv, hs, cs⟩)
-      | "close1", np :: canon :: k :: rest =>
+        let hs : Option Out := if b hp then some ⟨hv, hsid, hlen, hrk, b hcs, b hal⟩ else none
+        let cs : Option Out := if b cp then some ⟨cv, csid, clen, crk, b ccs, b cal⟩ else none
+        applyClose st (signClose2 st.policy st.setup st.es fundingId ⟨hv, cv, hs, cs⟩)
+      | "close1", np :: ver :: lt :: sq :: op :: k :: rest =>
         if !st.ready then (st, "nochan") else
         match outs? k rest [] with
         | some (outs, []) =>
-          applyRes st ((signClose1 st.policy st.setup st.es outs np (b canon)).map (·.1))
+          applyClose st ((signClose1 st.policy st.setup st.es fundingId ⟨ver, lt, sq, op, outs⟩ np).map
+            (fun r => (r.1, r.2.2)))
         | _ => (st, "bad-op")
       | _, _ => (st, "bad-op")
 
